@@ -66,7 +66,8 @@ def work(args):
             C = G.R.choice([('P', o), ('PL', o, G.dirv(2)), ('L', o, G.dirv(2)), ('S', o, E.add(o, G.dirv(2)))])
         rec = dict(A=A, B=B, C=C)
         try:
-            a, b, c = impl.build(A), impl.build(B), impl.build(C)
+            a, b = interlib.build_pair(impl, A, B)      # one case in six: an operand arrives by a primed in-place move
+            c = impl.build(C)
 
             def nest_l():
                 ab = impl.intersection(a, b)
@@ -198,7 +199,8 @@ def replay(ctx, case):
     from .. import impl
     c = case['case']
     A, B, C = (gen.from_jsonable(c[k]) for k in 'abc')
-    a, b, cc = impl.build(A), impl.build(B), impl.build(C)
+    a, b = interlib.build_pair(impl, A, B)
+    cc = impl.build(C)
     ml = core.model_lines(['inter3 %s %s %s' % (tok(A), tok(B), tok(C))])[0]
     truth = triple_truth(A, B, C, ml)
     l = impl.call(lambda: impl.describe(impl.intersection(impl.intersection(a, b), cc)))
